@@ -15,6 +15,9 @@ func (fr *Frame) specEnv(st *State) *SpecEnv {
 		env.old = nil
 		env.entry = nil
 	}
+	if fr.pendingRet != nil && fr.contract != nil {
+		bindResults(env, *fr.pendingRet, resultNames(fr.fn, fr.contract), fr.fn.Signature.Results())
+	}
 	return env
 }
 
